@@ -92,6 +92,14 @@ func numOf(f float64) Num {
 			return Num{C: "fin", S: s, N: int64(p) / g, D: q / g}
 		}
 	}
+	// a decimal numeral of up to seven fraction digits (what StrToNum reads from a short string), as the reduced fraction
+	for k, q := 1, int64(10); k <= 7; k, q = k+1, q*10 {
+		p := math.Round(math.Abs(f) * float64(q))
+		if p >= 1 && p < 1e9 && p/float64(q) == math.Abs(f) {
+			g := gcd(int64(p), q)
+			return Num{C: "fin", S: s, N: int64(p) / g, D: q / g}
+		}
+	}
 	return Num{C: "other", B: fmt.Sprintf("%#x", math.Float64bits(f))}
 }
 
